@@ -13,6 +13,7 @@ CONSTANTS
   Sizes = {1, 1, 2, 3, 4}
   Stray = TRUE
   BVals = {}
+  BSVs = {}
   Depth = 30
 INVARIANT Emit
 CHECK_DEADLOCK FALSE
